@@ -28,7 +28,7 @@ def run(tier):
     # Verus unit c07_jumps (jmp / jcc / jmp_near / jcc_near / resolve_jumps)
     is_label_row = lambda r: r.endswith(('__fwd', '__bwd'))
     return prop_asm.run(PROP, 'x64', tier, assumptions, samples, not_decided, slow=SLOW_ROWS,
-                        extra_steps=prop_asm.verus_unit_step('c07_jumps.vspec'), quick_skip=is_label_row, slow_jobs=5)
+                        extra_steps=prop_asm.verus_unit_step('c07_jumps.vspec'), quick_skip=is_label_row, slow_jobs=5, quick_share=2)
 
 
 def replay(rp):
